@@ -7,8 +7,11 @@ PROP = dict(level="model_checking", parts=[
         env={"ASAN_OPTIONS": "detect_leaks=0:abort_on_error=0:exitcode=97:symbolize=0"}),
     cxx("ovl", "C17_cpt", ninja=TOOLS, shards=(4, 16), args=["--family", "overlap"],
         env={"ASAN_OPTIONS": "detect_leaks=0:abort_on_error=0:exitcode=97:symbolize=0"}),
+    # all call histories (whole-table / row / chunk / out-of-range, read and write) on ONE CptTable object
+    cxx("tob", "C17_cpt", ninja=TOOLS, shards=(16, 16), args=["--family", "tableobj"],
+        env={"ASAN_OPTIONS": "detect_leaks=0:abort_on_error=0:exitcode=97:symbolize=0"}),
 ])
 TEXT = dict(engine="bsx", design_ref="DESIGN.md §3 C17",
-   technique="explicit-state BFS over operation histories (write / reopen with each access level / read; and several overlapping handles plus derived objects on one file in one process) on real HDF5 checkpoint files vs a std::map reference model, ASan on harness + xtp sources",
-   level_text="Every history up to the stated depth over the stated typed value alphabet, group paths and names is replayed on its own HDF5 file through CheckpointFile/Writer/Reader/CptTable; afterwards a fresh read-only handle reads every slot and is compared bit for bit with the reference map (never-written names must raise, read-only handles must reject writes and leave the file bytes unchanged). A sizes phase writes, overwrites and re-reads every container kind with 0..101 (thorough 1001) distinct elements, tables also row by row. An expression phase hands every Eigen expression shape (rows, columns, blocks, strips, transposes, strided Maps, segments; both storage orders; double/float/Index) to the MatrixBase overloads. A process-state family creates a table with compact=true|false (openTable or the public CptTable constructor) and then writes values above 64 KiB anywhere in the same process, and writes every value kind under one global C++ locale (classic / thousands grouping / decimal comma) and reads it under another. A further family explores 2-3 simultaneously open CheckpointFile slots (and readers/writers/tables outliving them) on one file: a READ-level handle must refuse getWriter whatever else is open, every handle reads the last write. States/transitions are counted; every transition is a trace validated on the implementation.",
+   technique="explicit-state BFS over operation histories (write / reopen with each access level / read; several overlapping handles plus derived objects on one file in one process; all call sequences on one CptTable object) on real HDF5 checkpoint files vs a std::map reference model, ASan on harness + xtp sources",
+   level_text="Every history up to the stated depth over the stated typed value alphabet, group paths and names is replayed on its own HDF5 file through CheckpointFile/Writer/Reader/CptTable; afterwards a fresh read-only handle reads every slot and is compared bit for bit with the reference map (never-written names must raise, read-only handles must reject writes and leave the file bytes unchanged). A sizes phase writes, overwrites and re-reads every container kind with 0..101 (thorough 1001) distinct elements, tables also row by row. An expression phase hands every Eigen expression shape (rows, columns, blocks, strips, transposes, strided Maps, segments; both storage orders; double/float/Index) to the MatrixBase overloads. A process-state family creates a table with compact=true|false (openTable or the public CptTable constructor) and then writes values above 64 KiB anywhere in the same process, and writes every value kind under one global C++ locale (classic / thousands grouping / decimal comma) and reads it under another. A further family explores 2-3 simultaneously open CheckpointFile slots (and readers/writers/tables outliving them) on one file: a READ-level handle must refuse getWriter whatever else is open, every handle reads the last write. A table-object family replays ALL call sequences of length <= 3 (thorough 4) on ONE CptTable object (from the writer, and from a reader on a MODIFY and on a READ file; 1/2/3/6 rows) over whole-table, single-row, chunk and out-of-range read/write calls against a plain vector of rows, checking every read target entry by entry and the file after every write. States/transitions are counted; every transition is a trace validated on the implementation.",
    level_note="Trusted: the reference map and canonical byte strings; system HDF5 1.10 (not instrumented; ASan sees its memcpy traffic); values/paths off the alphabet and reads with a type other than the one written are not covered.")
